@@ -65,3 +65,28 @@ package keeper
 //@   ensures[C04.slash.once]   old(slashInfoRaw(ctx, accstr(parameter.Operator), parameter.AVSAddr, parameter.SlashID)) != nil ==>
 //@        err != nil && state(ctx) == old(state(ctx))
 //@   ensures[C04.slash.recorded] err == nil ==> slashInfoRaw(ctx, accstr(parameter.Operator), parameter.AVSAddr, parameter.SlashID) != nil
+
+// ---------------------------------------------------------------------------------------------
+// C10: the operator message handlers act only for the account that GetSigners() reports
+// (x/operator/types: bech32addr(FromAddress) resp. bech32addr(Address)).
+
+//@ func (*MsgServerImpl).RegisterOperator
+//@   requires req != nil
+//@   flag havoc=SetOperatorInfo
+//@   before[C10.ms.register.signer] SetOperatorInfo requires arg_addr == old(req.FromAddress)
+
+//@ func (*MsgServerImpl).OptIntoAVS
+//@   requires req != nil
+//@   flag havoc=.OptIn,.OptInWithConsKey,NewWrappedConsKeyFromJSON
+//@   before[C10.ms.optin.signer] Keeper).OptIn requires arg_operatorAddress == bech32addr(old(req.FromAddress))
+//@   before[C10.ms.optinkey.signer] Keeper).OptInWithConsKey requires arg_operatorAddress == bech32addr(old(req.FromAddress))
+
+//@ func (*MsgServerImpl).OptOutOfAVS
+//@   requires req != nil
+//@   flag havoc=.OptOut
+//@   before[C10.ms.optout.signer] Keeper).OptOut requires arg_operatorAddress == bech32addr(old(req.FromAddress))
+
+//@ func (*MsgServerImpl).SetConsKey
+//@   requires req != nil
+//@   flag havoc=.SetOperatorConsKeyForChainID,.IsActive,NewWrappedConsKeyFromJSON
+//@   before[C10.ms.setkey.signer] Keeper).SetOperatorConsKeyForChainID requires arg_opAccAddr == bech32addr(old(req.Address))
